@@ -78,6 +78,8 @@ func c06Table(c *vlib.Ctx) {
 var c06Pool = []pushcheck.Behaviour{{Status: 200}, {Status: 204}, {Status: 299}, {Status: 500}, {Status: 503}, {Status: 599}, {Status: 429}, {Status: 408}, {Status: 404}, {Status: 400}, {Status: 409},
 	{Status: 301}, {Status: 304}, {Status: 100}, {Status: 199}, {Err: "net"}, {Err: "timeout"}, {Err: "policy"}}
 
+var c06Retryable = []pushcheck.Behaviour{{Status: 500}, {Status: 503}, {Status: 599}, {Status: 429}, {Status: 408}, {Err: "net"}, {Err: "timeout"}}
+
 // c06Random: per-target behaviour sequences, multi-target routes, concurrency,
 // DLQ requeue cycles, generated retry configs, injected store failures.
 func c06Random(c *vlib.Ctx) {
@@ -127,12 +129,46 @@ func c06Random(c *vlib.Ctx) {
 	})
 }
 
+// c06Deep: large retry.max with a target that never recovers: every attempt
+// number up to max+1 is reached, including those where base*2^(attempt-1)
+// exceeds the cap by hundreds of binary orders of magnitude (beyond int64
+// nanoseconds and beyond float64 precision).
+func c06Deep(c *vlib.Ctx) {
+	type cfg struct {
+		max       int
+		base, cap time.Duration
+		jitter    float64
+	}
+	cfgs := []cfg{
+		{70, 50 * time.Millisecond, 100 * time.Millisecond, 0}, {70, 2 * time.Second, time.Hour, 0}, {48, time.Hour, 24 * time.Hour, 0},
+		{90, time.Millisecond, time.Millisecond, 0.5}, {1100, time.Nanosecond, time.Second, 0}, {64, time.Second, 2 * time.Second, 1},
+	}
+	if c.Thorough() {
+		for i := 0; i < 24; i++ {
+			r := vlib.Derive(c.Seed, "C06deep", i)
+			base := time.Duration(r.Range(1, 5000)) * vlib.Pick(r, []time.Duration{time.Nanosecond, time.Millisecond, time.Second, time.Minute})
+			cfgs = append(cfgs, cfg{r.Range(30, 1200), base, base * time.Duration(r.Range(1, 50)), vlib.Pick(r, []float64{0, 0.2, 1})})
+		}
+	}
+	parallel(len(cfgs), 6, func(i int) {
+		k := cfgs[i]
+		be := []string{"memory", "sqlite"}[i%2]
+		url := "https://deep.example/hook"
+		routes := []dispatcher.RouteConfig{{Route: "/deep", Concurrency: 1, Targets: []dispatcher.TargetConfig{{URL: url, Timeout: 10 * time.Millisecond,
+			Retry: dispatcher.RetryConfig{Type: "exponential", Max: k.max, Base: k.base, Cap: k.cap, Jitter: k.jitter}}}}}
+		pushcheck.Run(c, pushcheck.Scenario{Label: fmt.Sprintf("C06/deep/%s/max%d-base%s-cap%s-j%v", be, k.max, k.base, k.cap, k.jitter), Backend: be, Routes: routes,
+			Messages: []pushcheck.Message{{ID: "deep", Route: "/deep", Target: url}},
+			Script:   func(_, _ string, nth int) pushcheck.Behaviour { return c06Retryable[nth%len(c06Retryable)] }})
+	})
+}
+
 // C06: push delivery classification, bounded retry with backoff, DLQ.
 func C06(c *vlib.Ctx) {
 	c.Rule("the real PushDispatcher runs against a recording store wrapper (memory and SQLite, virtual clock jumped to the next due instant whenever the dispatcher is idle) and a scripted deliverer. (1) table sweep: every status 100-599 and the error kinds net/timeout/policy, retry.max 1 and 3, every attempt 1..max+1 (the finite classification table, enumerated completely: see table_cells); (2) generated per-target behaviour sequences with recovery, 1-3 targets, concurrency 1-8, generated retry configs (max 1-12, base<=cap, jitter 0/0.2/0.5/1), DLQ requeue cycles, injected lease-mutation failures; (3) a real-HTTP sample of HTTPDeliverer against local servers. Each delivery's settlement, nack delay, next offer time and attempt record are compared with an independent table. distinct_nontrivial = distinct (result, attempt-vs-max, expected action) classes.")
 	c.Assume("the attempt bound and the terminal-state clause are asserted only in scenarios without injected store failures, as the quantifier says")
 	c06Table(c)
 	c06Random(c)
+	c06Deep(c)
 	c06HTTP(c)
 	// an egress-policy denial raised at a redirect hop is still a policy denial:
 	// dead-lettered policy_denied after one attempt, not retried to max_retries
